@@ -86,8 +86,11 @@ theorem runStrict_reachable {σ α : Type} (S : Sys σ α) (s : σ) (h : Reachab
     | none => simp [hst] at hr
     | some s1 => simp [hst] at hr; exact ih s1 (.step h hst) hr
 
-/-- function update, used for thread tables `Nat → Option Thread` and counters -/
-def upd {κ β : Type} [DecidableEq κ] (f : κ → β) (k : κ) (v : β) : κ → β :=
+/-- function update, used for thread tables `Nat → Option Thread` and counters.
+`noinline`: in compiled code `upd f k v` must stay a partial application whose new value `v` is
+computed once, when the map is built.  Inlined, the compiler turns a field `upd f k (f k + 1)` into
+a lambda that recomputes `f k + 1` on every lookup — exponential in the number of updates. -/
+@[noinline] def upd {κ β : Type} [DecidableEq κ] (f : κ → β) (k : κ) (v : β) : κ → β :=
   fun j => if j = k then v else f j
 
 @[simp] theorem upd_same {κ β : Type} [DecidableEq κ] (f : κ → β) (k : κ) (v : β) : upd f k v k = v := by
